@@ -32,6 +32,18 @@ from hypothesis import strategies as st
 from vlib import core, tools
 from vlib.core import Check, Discard, Inconclusive, Violation
 
+def _retry(fn, *a, **kw):
+    """Assembler/archiver invocations are killed by the 60 s tool timeout when the machine is badly
+    oversubscribed; that says nothing about the property, so try again before giving up."""
+    for attempt in range(3):
+        try:
+            return fn(*a, **kw)
+        except Inconclusive:
+            if attempt == 2:
+                raise
+
+
+
 SIG_RELR_PARITY = "alloc:relr-parity-in-1-aligned-section"
 SIG_BUILD_ID = "alloc:build-id-hex-length-not-multiple-of-4"
 SIG_STRIP_GOTPLT = "alloc:strip-all-with-got-plt-syms"
@@ -655,10 +667,10 @@ class C23(Check):
         d = os.path.join(ctx.root, "c23-cache")
         if not os.path.exists(os.path.join(d, "ok")):
             os.makedirs(d, exist_ok=True)
-            tools.asm(DEP_SRC, "dep.o", cwd=d)
+            _retry(tools.asm, DEP_SRC, "dep.o", cwd=d)
             tools.must(tools.link("ld", ["-shared", "-o", "libdep.so", "dep.o", "--soname=libdep.so"], cwd=d), "building libdep.so")
-            tools.asm(TGA_SRC, "tga.o", cwd=d)
-            tools.ar("libtga.a", ["tga.o"], cwd=d)
+            _retry(tools.asm, TGA_SRC, "tga.o", cwd=d)
+            _retry(tools.ar, "libtga.a", ["tga.o"], cwd=d)
             for pic, nm in (("-fPIC", "cm_pic.o"), ("-fno-pic", "cm_nopic.o")):
                 tools.cc(C_MEMBER, nm, flags=["-O1", pic, "-fno-stack-protector", "-fcf-protection=none", "-g0"], cwd=d)
             tools.write(os.path.join(d, "ok"), "1")
@@ -673,14 +685,14 @@ class C23(Check):
         srcs = p.render()
         objs = []
         for i, s in enumerate(srcs):
-            tools.asm(s, f"o{i}.o", cwd=d)
+            _retry(tools.asm, s, f"o{i}.o", cwd=d)
             objs.append(f"o{i}.o")
         inputs = [objs[0]]
         rest = objs[1:]
         if p.c_member:
             rest.append(os.path.join(cache, "cm_pic.o" if p.pic else "cm_nopic.o"))
         if "archive" in p.feats and rest and not p.reloc:
-            tools.ar("libm.a", rest, cwd=d)
+            _retry(tools.ar, "libm.a", rest, cwd=d)
             # Archive members are only loaded when needed; force them so that the program is the same.
             inputs += ["--whole-archive", "libm.a", "--no-whole-archive"]
         else:
